@@ -60,16 +60,21 @@ Definition sumN (l : list N) : N := fold_right N.add 0 l.
 Definition put16 (o : Z) : list N :=
   let v := Z.to_N (o mod 65536) in [v / 256; v mod 256].
 
-(* Make: one zero-initialised slot per width; operand i overwrites slot i when
-   its width is 2 (other widths are left zero); more operands than widths is an
-   index-out-of-range panic in Go ([None] here; the compiler never does it) *)
+(* Make (code.go at HEAD, after e351c68): one zero-initialised slot per width;
+   operand i overwrites slot i when its width is 2 — and must fit 16 bits,
+   otherwise Make returns ErrOperandRange ([None]); other widths are left
+   zero; more operands than widths is an index-out-of-range panic in Go
+   ([None] too; the compiler never does it) *)
+Definition fits16 (o : Z) : bool := ((0 <=? o) && (o <=? 65535))%Z.
+
 Fixpoint make_operands (ws : list N) (operands : list Z) : option (list N) :=
   match ws, operands with
   | [], [] => Some []
   | [], _ :: _ => None
   | w :: ws', [] => option_map (app (repeat 0 (N.to_nat w))) (make_operands ws' [])
   | w :: ws', o :: os' =>
-      option_map (app (if w =? 2 then put16 o else repeat 0 (N.to_nat w))) (make_operands ws' os')
+      if (w =? 2) && negb (fits16 o) then None
+      else option_map (app (if w =? 2 then put16 o else repeat 0 (N.to_nat w))) (make_operands ws' os')
   end.
 
 Definition make (op : N) (operands : list Z) : option (list N) :=
@@ -78,18 +83,37 @@ Definition make (op : N) (operands : list Z) : option (list N) :=
   | Some ws => option_map (cons op) (make_operands ws operands)
   end.
 
-(* instructions.go: changeOperand — overwrite the two bytes after opPosition *)
+(* Make as it was before e351c68: uint16(o), silently truncated (kept for the
+   regression lemmas …_before_fix) *)
+Fixpoint make_operands_before_fix (ws : list N) (operands : list Z) : option (list N) :=
+  match ws, operands with
+  | [], [] => Some []
+  | [], _ :: _ => None
+  | w :: ws', [] => option_map (app (repeat 0 (N.to_nat w))) (make_operands_before_fix ws' [])
+  | w :: ws', o :: os' =>
+      option_map (app (if w =? 2 then put16 o else repeat 0 (N.to_nat w))) (make_operands_before_fix ws' os')
+  end.
+Definition make_before_fix (op : N) (operands : list Z) : option (list N) :=
+  match lookup_def op with
+  | None => None
+  | Some ws => option_map (cons op) (make_operands_before_fix ws operands)
+  end.
+
+(* instructions.go: changeOperand — overwrite the two bytes after opPosition;
+   at HEAD an operand that does not fit 16 bits is ErrOperandRange ([None]) *)
 Fixpoint set_nth {A} (n : nat) (x : A) (l : list A) : list A :=
   match n, l with
   | _, [] => []
   | O, _ :: t => x :: t
   | S n', y :: t => y :: set_nth n' x t
   end.
-Definition change_operand (pos : N) (operand : Z) (code : list N) : list N :=
+Definition change_operand_before_fix (pos : N) (operand : Z) (code : list N) : list N :=
   match put16 operand with
   | [hi; lo] => set_nth (N.to_nat pos + 2) lo (set_nth (N.to_nat pos + 1) hi code)
   | _ => code
   end.
+Definition change_operand (pos : N) (operand : Z) (code : list N) : option (list N) :=
+  if fits16 operand then Some (change_operand_before_fix pos operand code) else None.
 
 (* ReadOperands: width 2 is read big-endian, any other width yields operand 0;
    [None] when the slice is too short (Go: slice bounds panic) *)
